@@ -24,6 +24,27 @@ STRENGTHENED = {
  'C06-B': 'missed at first: added the row-type-order stream over back-quoted column arithmetic / expr() (`c06Order`) and a back-quoted variant in the fresh-process history stream',
  'C07-B': 'missed at first: two-key ORDER BY with a tie-prone first key and an implicit direction on the second is now generated deliberately',
  'C13-B': 'missed at first: single-case alphabet; added the letter-case twin stream `c13case`',
+ 'C01-D': 'missed at first (only round window sizes, which every alignment origin shares): added 700 ms / 1.3 s / 7 s / 11 s / 13 s sizes with a base timestamp that is a multiple of their lcm (C01, C02, C08)',
+ 'C02-C': 'missed at first (early firing was judged against the window_end the result claims): a session ends at its latest event + timeout, whatever it claims; added the inner out-of-order generator `genC02SessionInside`',
+ 'C02-D': 'missed at first: added ahead-of-the-clock garbage cases (sequence 3-20 h in the future, garbage > 24 h ahead of the clock but < 24 h ahead of the accepted events)',
+ 'C03-D': 'missed at first: added the compound item `sumdiff` = sum(exprA) - sum(exprB) with two different expression arguments',
+ 'C04-C': 'missed at first: group columns are now selected under aliases in any mix with un-aliased ones (`groupby.tuple_not_under_selected_name`)',
+ 'C04-D': 'missed at first: added 64-bit integer keys beyond 2^53 (typed keys keep such integers exact)',
+ 'C05-C': 'missed at first: added the 64-bit column `big` and unparenthesised AND chains of plain comparisons (the shortcut shape)',
+ 'C05-D': 'missed at first: added the caller-reuses-its-map probe on the EmitSync path (`result.shares_callers_map`)',
+ 'C06-D': 'missed at first: added unparenthesised mixed AND/OR chains of plain comparisons (`flatMix`)',
+ 'C08-D': 'missed at first (late rows were "not demanded, not forbidden"): rows too late by every criterion must be aggregated nowhere (`sliding.too_late_row_aggregated`); C02 garbage cases also run under burst feed',
+ 'C09-C': 'missed at first (block strategy only): added expand-strategy cases with a 4-slot input buffer - which also exposed the uncounted displaced window results repaired in e2598c1',
+ 'C09-D': 'missed at first: added computed grouping keys (`GROUP BY upper(k1), CountingWindow(N)`) with interleaved spellings',
+ 'C10-D': 'missed at first (one key column): added two-column session keys over separator / escape characters',
+ 'C11-D': 'missed at first: added the totality class "well-formed statement with one semantic error" (unknown function buried in expressions of many lengths and spacings)',
+ 'C13-D': 'missed at first: added the stream `c13aggcase` (LIKE / IS NULL in a CASE condition feeding an aggregate, rows without the column)',
+ 'C15-D': 'missed at first (every event carried every column): added sparse events where DEFINE semantics are pinned',
+ 'C16-D': 'missed at first (single join): added two-table statements with every INNER/LEFT combination (`c16multi`)',
+ 'C17-D': 'missed at first (rows with an UNKNOWN predicate follow the engine): added the isolation re-run - each group fed alone must fire identically (`global.other_groups_influence`)',
+ 'C18-D': 'missed at first: slow asynchronous sinks now saturate the sink pool in front of the panicking sink, the panicking sink panics on every third call, and counting/global survival batches are owed every result',
+ 'C19-D': 'missed at first: added refill configurations (8-16 producers, thousands of one-slot expansions from below the trigger threshold)',
+ 'C20-D': 'missed at first (solo baseline ran in the same process): added case-twin instances checked against a direct reference (`c20case`)',
 }
 rows = []
 n = caught = 0
@@ -65,7 +86,9 @@ new7 = '''## 7. Trusting the monitors: seeded changes
    from fresh processes until silent apart from the listed known findings.
 2. **Seeded changes.**  For every property a fresh sub-agent was given *only* the property text and a scratch
    worktree, and asked for two realistic changes (A, B) that break the property while the library still compiles
-   and its suite still passes, each needing something specific to manifest, with a demonstration test.  Each
+   and its suite still passes, each needing something specific to manifest, with a demonstration test.  A second
+   round of fresh sub-agents (again only the property text, plus the one-line titles of A and B so as not to
+   repeat them) produced two more per property (C, D).  Each
    change was kept only after it was confirmed here (`tools/seedcheck.py`, scratch worktree of /repo HEAD): the
    patch applies and builds, the demonstration FAILS with it and PASSES without it, the unedited suite passes
    with it; then the property's quick check was run against the patched tree (a scratch copy of /verif whose
